@@ -58,18 +58,20 @@ Theorem C18_text_fallback_kinds_partial :
 Proof. exact text_ctx_kinds. Qed.
 
 (** While `def test_x(a, b` is being typed on the last line of a document that does not parse —
-    any whitespace indentation, any identifier starting with test_, any parameter text
+    any whitespace indentation, ANY non-empty run of white space behind the keyword (one blank,
+    several, a tab: since fix aeb5786), any identifier starting with test_, any parameter text
     without parentheses, anything above that does not mention usefixtures( — the fallback
     answers with EXACTLY the signature context of that function: name, line, whether a
     fixture decorator stands above, the parameters typed so far, the decorator's scope. *)
 Theorem C18_typed_signature_context :
-  forall (content : text) (above : list text) (indent name ptext line : text),
-    line = indent ++ s_def ++ name ++ 40 :: ptext ->
+  forall (content : text) (above : list text) (indent gap name ptext line : text),
+    line = indent ++ s_kw_def ++ gap ++ name ++ 40 :: ptext ->
     text_lines content = above ++ [line] ->
     (forall ln, In ln (above ++ [line]) -> Text.find s_usefixtures ln = None) ->
     forallb is_ws indent = true ->
+    gap <> [] -> forallb is_ws gap = true ->
     name <> [] -> forallb ident_char name = true -> tprefix s_test name = true ->
-    no_parens indent = true -> no_parens ptext = true ->
+    no_parens indent = true -> no_parens gap = true -> no_parens ptext = true ->
     text_ctx_with true false content (len above + 1)
     = Some (CSig (utf8_encode name) (len above + 1)
                  (has_fixture_decorator_above (rev above))
@@ -78,6 +80,13 @@ Theorem C18_typed_signature_context :
                   then Some (match scope_from_text (rev above) with Some s => s | None => 0 end) else None)).
 Proof. exact typed_signature_context. Qed.
 Print Assumptions C18_typed_signature_context.
+(** before that fix the keyword had to be followed by exactly one space and the name at once:
+    two blanks (or a tab) behind [def] gave no context at all *)
+Lemma C18_def_gap_old_refuted :
+  text_ctx_with_old_kw true false (utf8_decode "def  test_new(db, ") 1 = None /\
+  text_ctx_with true false (utf8_decode "def  test_new(db, ") 1 = Some (CSig "test_new" 1 false ["db"] None).
+Proof. split; vm_compute; reflexivity. Qed.
+
 (** the parameters typed so far, on an instance *)
 Example C18_declared_from_text_example :
   declared_from_text [utf8_decode "    def test_x(db, client: int = 3, *, cfg"] = ["db"; "client"; "cfg"].
